@@ -92,25 +92,47 @@ type Monitor struct {
 	Src      string
 }
 
+// Lemma: a statement about spec functions proved by induction; once proved it is
+// available to every obligation as a quantified fact.
+type Lemma struct {
+	Name      string
+	Pkg       string
+	Params    []CBinder
+	Requires  []*Clause
+	Ensures   []*Clause
+	Inducts   []*LemmaInduct // induction hypotheses: the lemma at smaller arguments
+	Decreases *CExpr
+	Src       string
+}
+
+type LemmaInduct struct {
+	Args []*CExpr
+	When *CExpr
+	Text string
+}
+
 type Registry struct {
-	Monitors  []*Monitor
-	Guards    []*Guard
-	MapInvs   []*MapInv
-	Contracts map[string]*Contract
-	Specs     map[string]*SpecFn // by name (unqualified, must be unique) and pkg#name
-	Ghosts    map[string]*GhostDecl
-	Axioms    []*Axiom
-	Files     []string
+	ElemInvs   []*MapInv // invariants on every element stored in any slice of the given type
+	Lemmas     map[string]*Lemma
+	LemmaOrder []string
+	Monitors   []*Monitor
+	Guards     []*Guard
+	MapInvs    []*MapInv
+	Contracts  map[string]*Contract
+	Specs      map[string]*SpecFn // by name (unqualified, must be unique) and pkg#name
+	Ghosts     map[string]*GhostDecl
+	Axioms     []*Axiom
+	Files      []string
 }
 
 func newRegistry() *Registry {
-	return &Registry{Contracts: map[string]*Contract{}, Specs: map[string]*SpecFn{}, Ghosts: map[string]*GhostDecl{}}
+	return &Registry{Contracts: map[string]*Contract{}, Specs: map[string]*SpecFn{}, Ghosts: map[string]*GhostDecl{}, Lemmas: map[string]*Lemma{}}
 }
 
 var stmtKeywords = map[string]bool{
 	"package": true, "func": true, "requires": true, "ensures": true, "assume_ensures": true, "modifies": true, "loop": true,
 	"invariant": true, "option": true, "trusted": true, "pure": true, "spec": true, "ufunc": true,
-	"axiom": true, "ghost": true, "decreases": true, "opaque": true, "mapvalues": true, "guarded": true, "monitor": true,
+	"axiom": true, "ghost": true, "decreases": true, "opaque": true, "mapvalues": true, "elemvalues": true, "guarded": true, "monitor": true, "lemma": true, "induct": true,
 }
 
 type rawStmt struct {
@@ -165,6 +187,7 @@ func (r *Registry) loadContractFile(path string, pkgPath string) error {
 	var cur *Contract
 	curLoop := -1
 	var lastSpec *SpecFn
+	var curLemma *Lemma
 	for _, s := range stmts {
 		fail := func(f string, a ...any) error {
 			return fmt.Errorf("%s: %s", s.src, fmt.Sprintf(f, a...))
@@ -182,11 +205,56 @@ func (r *Registry) loadContractFile(path string, pkgPath string) error {
 				return fail("duplicate contract for %s", key)
 			}
 			pk := key[:strings.Index(key, "#")]
+			curLemma = nil
 			cur = &Contract{Key: key, Pkg: pk, Loops: map[int][]*Clause{}, LoopMods: map[int][]string{}, Options: map[string]string{}, Src: s.src}
 			r.Contracts[key] = cur
 			curLoop = -1
 			lastSpec = nil
+		case "lemma":
+			sf, err := parseSpecDecl(s.rest+" bool", true)
+			if err != nil {
+				return fail("%v", err)
+			}
+			if r.Lemmas[sf.Name] != nil {
+				return fail("duplicate lemma %s", sf.Name)
+			}
+			curLemma = &Lemma{Name: sf.Name, Pkg: pkgPath, Params: sf.Params, Src: s.src}
+			r.Lemmas[sf.Name] = curLemma
+			r.LemmaOrder = append(r.LemmaOrder, sf.Name)
+			cur = nil
+			lastSpec = nil
+		case "induct":
+			if curLemma == nil {
+				return fail("induct outside lemma")
+			}
+			text, when, _ := strings.Cut(s.rest, " when ")
+			ce, err := parseCExpr(strings.TrimSpace(text))
+			if err != nil || ce.Op != "call" || ce.Name != curLemma.Name {
+				return fail("induct needs '%s(args) [when cond]'", curLemma.Name)
+			}
+			li := &LemmaInduct{Args: ce.Args, Text: s.rest}
+			if strings.TrimSpace(when) != "" {
+				w, err := parseCExpr(when)
+				if err != nil {
+					return fail("%v", err)
+				}
+				li.When = w
+			}
+			curLemma.Inducts = append(curLemma.Inducts, li)
 		case "requires", "ensures", "invariant", "assume_ensures":
+			if curLemma != nil && cur == nil && (s.kw == "requires" || s.kw == "ensures") {
+				e, err := parseCExpr(s.rest)
+				if err != nil {
+					return fail("%v", err)
+				}
+				cl := &Clause{Text: s.rest, Expr: e, Src: s.src}
+				if s.kw == "requires" {
+					curLemma.Requires = append(curLemma.Requires, cl)
+				} else {
+					curLemma.Ensures = append(curLemma.Ensures, cl)
+				}
+				continue
+			}
 			if cur == nil {
 				return fail("%s outside func", s.kw)
 			}
@@ -287,8 +355,15 @@ func (r *Registry) loadContractFile(path string, pkgPath string) error {
 			r.Specs[sf.Name] = sf
 			lastSpec = sf
 			cur = nil
+			curLemma = nil
 		case "decreases":
-			if lastSpec != nil {
+			if curLemma != nil {
+				e, err := parseCExpr(s.rest)
+				if err != nil {
+					return fail("%v", err)
+				}
+				curLemma.Decreases = e
+			} else if lastSpec != nil {
 				e, err := parseCExpr(s.rest)
 				if err != nil {
 					return fail("%v", err)
@@ -332,6 +407,17 @@ func (r *Registry) loadContractFile(path string, pkgPath string) error {
 				g.Fields = append(g.Fields, strings.TrimSpace(f))
 			}
 			r.Guards = append(r.Guards, g)
+			cur = nil
+		case "elemvalues":
+			tt, text, ok := strings.Cut(s.rest, ":")
+			if !ok {
+				return fail("elemvalues needs 'slicetype: expr over v'")
+			}
+			e, err := parseCExpr(text)
+			if err != nil {
+				return fail("%v", err)
+			}
+			r.ElemInvs = append(r.ElemInvs, &MapInv{TypeText: strings.TrimSpace(tt), Pkg: pkgPath, Expr: e, Text: strings.TrimSpace(text), Src: s.src})
 			cur = nil
 		case "mapvalues":
 			tt, text, ok := strings.Cut(s.rest, ":")
